@@ -4,3 +4,4 @@ import Frequenz.Extracted.Bounds
 import Frequenz.Model.Matryoshka
 import Frequenz.Model.JsonUtil
 import Frequenz.Props.C03
+import Frequenz.Props.C04
